@@ -113,7 +113,8 @@ func (c *conv) node(n *ast.Node) map[string]any {
 	case ast.TypeParenExpr:
 		return map[string]any{"k": "paren", "e": c.node(n.ParenExpr().Param)}
 	case ast.TypeAttrExpr:
-		return map[string]any{"k": "attr", "text": asciiName(n.AttrExpr().String())}
+		// the object and the attribute are expressions of their own (`.[f()].b`, `a.b[g()]`): the check pass descends into both
+		return map[string]any{"k": "attr", "text": asciiName(n.AttrExpr().String()), "o": c.opt(n.AttrExpr().Obj), "a": c.opt(n.AttrExpr().Attr)}
 	case ast.TypeIndexExpr:
 		ix := n.IndexExpr()
 		name, ho := "", false
